@@ -129,7 +129,7 @@ structure Out where
   blocks : List Stored                       -- the data area, in disk order
   frags : List FragEntry                     -- the fragment table
   files : List FileResult                    -- per input file, same order as the input
-  deriving Repr
+  deriving DecidableEq, Repr
 
 /-! ## block decomposition (front end) -/
 
